@@ -131,5 +131,5 @@ def run(ctx):
     body += f"def scrollCellGuard : Bool := {'true' if cellguard else 'false'}\n"
     body += "end Tickit.Gen.XTermFacts\n"
     ctx.write("XTermFacts", body)
-    facts.update({"eraseChunk": chunk, "eraseKeepsCount": keeps, "scrollGuard": guard, "printnGuard": pguard, "slrmAccept": accept})
+    facts.update({"eraseChunk": chunk, "eraseKeepsCount": keeps, "scrollGuard": guard, "scrollCellGuard": cellguard, "printnGuard": pguard, "slrmAccept": accept})
     info["xterm"] = facts
